@@ -62,6 +62,20 @@ impl Prop for C03 {
                 v.push(case(bytes.clone(), cfg, w, if mutated { "g-mut" } else { "g-doc" }));
             }
         }
+        // sparse tables (columns empty in every row, short cells) at narrow widths, between other blocks
+        let ns = scale(tier, 300, 5000);
+        for _ in 0..ns {
+            let t = super::tables::gen_sparse_table(r);
+            let html = if r.p(50) { t.html() } else { format!("<p>before</p>{}<p>after</p>", t.html()) };
+            for w in 1..=14usize {
+                if tier == Tier::Quick && r.p(50) {
+                    continue;
+                }
+                let mut cfg = mk_cfg(r, false);
+                cfg.overflow = false;
+                v.push(case(html.clone().into_bytes(), cfg, w, "g-doc"));
+            }
+        }
         v
     }
     fn oracle(&self, c: &Case, o: &Obs) -> Vec<Viol> {
